@@ -256,6 +256,26 @@ func checkCSV(r *ev.Run) {
 			rows = append(rows, [4]float64{a, b, b, a})
 		}
 	}
+	// single values, four to a row: every power of two of the double range with both neighbours, every power of ten
+	// with both neighbours (where the 'G' format changes between positional and exponent notation and the digit count
+	// changes), and doubles that are exactly representable in single precision (whose shortest single-precision decimal
+	// is NOT their shortest double-precision decimal: 0.1f, pi as a float, the float32 extremes)
+	singles := []float64{f32(0.1), f32(math.Pi), f32(1.0 / 3), f32(1e-3), f32(123456.789), math.MaxFloat32, math.SmallestNonzeroFloat32, -f32(0.7),
+		0.1, 0.30000000000000004, math.Pi, 9007199254740993, 123456789012345680, math.Nextafter(1, 2), math.Nextafter(1, 0)}
+	for k := -1074; k <= 1023; k++ {
+		x := math.Ldexp(1, k)
+		singles = append(singles, x, math.Nextafter(x, math.Inf(1)), -math.Nextafter(x, 0))
+	}
+	for e := -323; e <= 308; e++ {
+		x, _ := strconv.ParseFloat(fmt.Sprintf("1e%d", e), 64)
+		singles = append(singles, x, -math.Nextafter(x, math.Inf(1)), math.Nextafter(x, 0))
+	}
+	for len(singles)%4 != 0 {
+		singles = append(singles, 0)
+	}
+	for i := 0; i < len(singles); i += 4 {
+		rows = append(rows, [4]float64{singles[i], singles[i+1], singles[i+2], singles[i+3]})
+	}
 	var buf bytes.Buffer
 	w := fileformats.NewSegmentCSVWriter(&buf)
 	for _, row := range rows {
